@@ -305,7 +305,10 @@ def case_programs(ctx, cfg):
         queue.append((m1, m1.prog))
     while queue:
         model, prog = queue.popleft()
-        if len(prog) >= depth or ctx.expired():
+        # programs that contain a rejected edge (a deviation from the default course) are explored to depth 3 in both
+        # tiers; depth 4 of the thorough tier is for programs of accepted actions (with rejected edges the depth-4 space of
+        # the 12-object universe has more than 1e8 states and does not finish within the time cap)
+        if len(prog) >= (3 if any(x[0] == "rejected" for x in prog) else depth) or ctx.expired():
             continue
         for a in acts:
             m2 = step(model, prog, a)
